@@ -130,6 +130,23 @@ by split; [exact: logm_sound|exact: solver_state_sound].
 Qed.
 Print Assumptions C03_site_expm_logm_solver.
 
+(* solver functions returning a symmetrised matrix with a literal isherm=True
+   (propagator_steadystate, _steadystate_direct, _steadystate_power) *)
+Theorem C03_site_solver_symmetrised :
+  forall (R : fieldType) (conj : {rmorphism R -> R}), involutive conj ->
+  forall n e (X : 'M[R]_n),
+  let H := X + dag conj X in
+  (sound_h conj (prop_ss_herm e) H /\ sound_u conj (prop_ss_unit e) H /\ prop_ss_data = DSymm) /\
+  (sound_h conj (ss_direct_herm e) (2%:R^-1 *: H) /\ sound_u conj (ss_direct_unit e) (2%:R^-1 *: H)
+   /\ ss_direct_data = DSymmHalf) /\
+  (sound_h conj (ss_power_herm e) ((\tr H)^-1 *: H) /\ sound_u conj (ss_power_unit e) ((\tr H)^-1 *: H)
+   /\ ss_power_data = DSymmNormTr).
+Proof.
+move=> R conj cK n e X H; split; first exact: prop_ss_sound.
+by split; [exact: ss_direct_sound|exact: ss_power_sound].
+Qed.
+Print Assumptions C03_site_solver_symmetrised.
+
 Theorem C03_site_unit_inplace :
   forall (R : fieldType) (conj : {rmorphism R -> R}) n e (A : 'M[R]_n) z,
   (0 < n)%N -> z != 0 -> sound_a conj e A -> scal_ok conj e z ->
